@@ -10,7 +10,7 @@ from tradingenv.contracts import AbstractContract
 import numpy as np
 
 PROP = "C14"
-PLAN = {"quick": 6000, "thorough": 600000}
+PLAN = {"quick": 12000, "thorough": 600000}
 TIMEOUT = 20
 CHUNK = 300
 NAN = float("nan")
